@@ -133,8 +133,7 @@ Definition servable (s : fstate) (n : N) (hd : block) (sg pre : list seg) (x : s
   sg = pre ++ x :: suf /\ bnum (seg_blk x) = n /\
   (forall y, In y pre -> bnum (seg_blk y) < n) /\ (forall y, In y suf -> n < bnum (seg_blk y)).
 
-Definition C09_from_num : Prop :=
-  forall s n, wf_state s ->
+Definition from_num_spec (s : fstate) (n : N) : Prop :=
     match blocks_from_num s n with
     | BOk evs =>
         exists hd sg pre x suf,
@@ -148,6 +147,8 @@ Definition C09_from_num : Prop :=
                       forall x, In x sg -> bnum (seg_blk x) <> n
     | BPanic | BFuel => False
     end.
+
+Definition C09_from_num : Prop := forall s n, wf_state s -> from_num_spec s n.
 
 (* the cursor LIB of a snapshot event is never above the event's block *)
 Definition C09_snapshot_cursor : Prop :=
@@ -245,3 +246,51 @@ Definition C09_ready_latch : Prop :=
         r = ROk /\ head_num (h_f h) <= bnum b /\
         linkable (h_f h') b = Some true /\ last_sent (h_f h') <> None)) /\
   (forall first kept h l, h_ready h = true -> h_ready (hub_run first kept h l) = true).
+
+(* ------------------------------------------------------------------ reachable states are well formed *)
+
+(* a block universe: one block per id, ids non-zero, a parent is strictly lower.
+   `Spec/Universe.wf_b U = true` implies it (C09_wf_universe_b). *)
+Record wf_universe (U : list block) : Prop := mk_wf_universe {
+  wu_id : forall a b, In a U -> In b U -> bid a = bid b -> a = b;
+  wu_nonzero : forall b, In b U -> bid b <> 0;
+  wu_parent : forall a p, In a U -> In p U -> bid p = bparent a -> bnum p < bnum a }.
+
+(* the state holds blocks of U only *)
+Definition store_in (U : list block) (s : fstate) : Prop :=
+  (forall e, In e (store (db s)) -> In (eb e) U) /\ (forall hd, last_sent s = Some hd -> In hd U).
+
+Definition pass_in (U : list block) (p : pass) : Prop :=
+  match p with PNil => True | PBlocks l => forall b, In b l -> In b U end.
+
+Definition C09_wf_reachable : Prop :=
+  forall U, wf_universe U ->
+    (* one ProcessBlock, any configuration (filters, handler failures, LIB modes of the state) *)
+    (forall cfg s b s' evs r, wf_state s -> store_in U s -> In b U ->
+       fk_step cfg s b = (s', evs, r) -> wf_state s' /\ store_in U s') /\
+    (* every history in discovery mode: any order, duplicates, orphans *)
+    (forall cfg h, incl h U -> wf_state (feed cfg (fs_init LNone) h) /\ store_in U (feed cfg (fs_init LNone) h)) /\
+    (* every run of the hub: live blocks and one-block passes drawn from U *)
+    (forall first kept l, (forall b p, In (b, p) l -> In b U /\ pass_in U p) ->
+       wf_state (h_f (hub_run first kept hub_init l)) /\ store_in U (h_f (hub_run first kept hub_init l))).
+
+(* in a hub (hold-until-LIB) a head exists only once a LIB is set: the hypothesis `has_lib` of
+   C09_lowest holds in every state of a hub run that has a head *)
+Definition C09_hub_head_has_lib : Prop :=
+  forall first kept l hd,
+    last_sent (h_f (hub_run first kept hub_init l)) = Some hd ->
+    has_lib (db (h_f (hub_run first kept hub_init l))) = true.
+
+(* the snapshot theorems for every state of every hub run over a well-formed universe: no
+   hypothesis on the state is left *)
+Definition C09_hub_snapshots : Prop :=
+  forall U first kept l, wf_universe U -> (forall b p, In (b, p) l -> In b U /\ pass_in U p) ->
+    let h := hub_run first kept hub_init l in
+    wf_state (h_f h) /\
+    (forall n, from_num_spec (h_f h) n) /\
+    (forall hd x0 sg, h_ready h = true -> last_sent (h_f h) = Some hd ->
+       complete_segment (db (h_f h)) (bref hd) = Some (x0 :: sg, true) ->
+       hub_lowest h = bnum (seg_blk x0) /\
+       (exists evs, blocks_from_num (h_f h) (hub_lowest h) = BOk evs /\
+                    map eblk evs = map seg_blk (x0 :: sg)) /\
+       (forall n, n < hub_lowest h -> blocks_from_num (h_f h) n = BErr)).
